@@ -31,6 +31,12 @@ func committedPaths(p *Program, progs map[string]*WireProg, ops []Op, prefixFrom
 		return "", false
 	}
 	for _, o := range ops {
+		// what follows a data-dependent early exit (a surviving "skip") is written only for some values: it is not
+		// committed for all of them
+		if containsSkip([]Op{o}) {
+			*notes = append(*notes, "early-exit:"+o.Kind+" "+o.Path)
+			break
+		}
 		if strings.HasPrefix(o.Path, "<") && prefixFrom == "" {
 			// an expression over fields (NewCurrency64(.Value)): every field it mentions reaches the bytes
 			for _, m := range exprFieldRe.FindAllString(o.Path, -1) {
@@ -439,4 +445,18 @@ func c12BlockBinding(c *Ctx, progs map[string]*WireProg) {
 	} else {
 		c.Undecided("block-binding", "consensus.(State).MerkleLeafHash", "", "anchor does not resolve")
 	}
+}
+
+func containsSkip(ops []Op) bool {
+	for _, o := range ops {
+		if o.Kind == "skip" || containsSkip(o.Sub) {
+			return true
+		}
+		for _, c := range o.Cases {
+			if containsSkip(c.Ops) {
+				return true
+			}
+		}
+	}
+	return false
 }
